@@ -260,7 +260,7 @@ fn finish_callback(res: CbRes, held: Option<Held>) -> Result<(), CbError> {
 pub fn sync_callback(gs: Vec<BoxGuard>) -> Result<(), CbError> {
     note_callback_entry();
     let cx = sched::current().expect("harness bug: eviction callback outside an agent");
-    let offered: Vec<Gkv> = gs.into_iter().map(|g| cx.run.adopt(g)).collect();
+    let offered: Vec<Gkv> = gs.into_iter().map(|g| cx.adopt(g)).collect();
     let (res, hold) = match cx.report_and_wait(Report::InCallback(offered.clone())) {
         Cmd::CbReturn(r, h) => (r, h),
         other => panic!("harness bug: command {:?} to an agent inside a sync callback", other),
@@ -301,7 +301,7 @@ impl Future for CbFuture {
     fn poll(mut self: Pin<&mut Self>, _: &mut Context<'_>) -> Poll<Self::Output> {
         let cx = sched::current().expect("harness bug: eviction callback outside an agent");
         if let Some(gs) = self.gs.take() {
-            let offered: Vec<Gkv> = gs.into_iter().map(|g| cx.run.adopt(g)).collect();
+            let offered: Vec<Gkv> = gs.into_iter().map(|g| cx.adopt(g)).collect();
             self.offered = offered.clone();
             cx.set_cb_pending(offered);
             return Poll::Pending;
